@@ -31,11 +31,15 @@ CFG = dict(
         "error without effect; concurrent batches are compared by their final state only (and only while no discard "
         "happened since the last Open: DiscardPrecommittedTxsSince does not recede the in-memory precommit watcher)",
         "the AHT is modelled as a function of the chain (at Open it is reset to the committed transactions and rebuilt "
-        "from the reloaded ones, /repo 2077e08). Records left behind the logical end of the tx log by a reopening are "
-        "dropped by the model at the next append, whereas in the file an identical re-delivery overwrites its twin exactly "
-        "and the records behind it come back at the next reopening: the harness ends a case at a reopening that follows an "
-        "accepted delivery behind discarded records",
-        "the _refuted witnesses (coq/Repl/Witness.v) use the executable SHA-256 over Coq's primitive 63-bit integers "
+        "from the reloaded ones, /repo 2077e08). The tx log behind the committed offset is modelled record by record: "
+        "live precommitted records, records discarded by DiscardPrecommittedTxsSince (they stay in front of the logical end "
+        "and ARE taken back by the next Open when they chain, as the code documents), and records behind the logical end "
+        "(not reloaded by an Open, or appended by a precommit that then failed with 'buffer is full'), which the next "
+        "performPrecommit drops (txLog.SetOffset truncates since /repo 09014a8) and an Open that comes first finds again",
+        "stores with embedded values are run (replicas with EmbeddedValues on and off) but not modelled apart: since /repo "
+        "b814f8c the reload loop skips and checks the values prefix. Its 2-byte length wraps at 64 KiB of values per "
+        "transaction; such a record is still dropped at reopen -- the harness never writes that much",
+        "the refutation witnesses of altered_rejected (coq/Repl/Witness.v) use the executable SHA-256 over Coq's primitive 63-bit integers "
         "(kernel primitives PrimInt63.*, listed by Print Assumptions); they are compiled with Properties/C07.v but the "
         "six theorems restated there are closed under the global context",
         "SHA-256 of the model = crypto/sha256: checked by every Alh comparison of this run (and by C08's cases)",
@@ -46,7 +50,9 @@ CFG = dict(
         "altered_rejected_partial additionally assumes the primary's header is chained to and linked with its own history "
         "(PrevAlh, BlRoot) and concludes `... or Collision H` (no collision-resistance axiom)",
         "the directed schedule that failed before /repo 7c27871 (deliver 1, deliver 2, discard since 1, deliver 1: stale "
-        "BlRoot of the pooled tx holder) runs at the start of every check; a recurrence is a violation",
+        "BlRoot of the pooled tx holder) runs at the start of every check; a recurrence is a violation; so is any "
+        "Close+Open that drops precommitted transactions without a discard in the session (before /repo b814f8c: every "
+        "replica with embedded values)",
     ],
 )
 
